@@ -8,8 +8,10 @@ A6 independence: the per-row computation writes no state outside its own locals 
 A7 progress wrapper is transparent; `cores` only reaches thread / worker sinks   A8 exporters iterate items in order
 """
 import ast
+import copy
 
 from .. import align, effects
+from ..affine import Aff
 from ..astutil import (u, atoms, guard_map, path_atoms, stmts_in, calls_in, callee, callee_attr, reaching_def, def_value,
                        PARAM, AMBIGUOUS, get_arg, get_kw, is_none, is_const, raised_name, block_path, names_in)
 from ..report import Undecided
@@ -20,6 +22,216 @@ CM = 'gambit.cli.common'
 def ret_tuple(fi):
     rets = [s for s in stmts_in(fi.node.body) if isinstance(s, ast.Return)]
     return rets
+
+
+# ---------------------------------------------------------------------- shared semantic helpers
+# The rules below decide by value flow, not by spelling.  Three small evaluators serve them:
+#   sym_returns   the value returned on every path of a loop-free function, expressed over its parameters (locals substituted,
+#                 guard clauses / if-else / conditional expressions forked, loops over a literal tuple unrolled)
+#   each_form     the (iterable, element variable, element expression) of an order-preserving elementwise construct
+#   expand_locals a local that merely names a side-effect-free expression is replaced by that expression
+
+def _is_doc(s):
+    return isinstance(s, ast.Expr) and isinstance(s.value, ast.Constant)
+
+
+def _comp_bound(node):
+    return {x.id for g in node.generators for x in ast.walk(g.target) if isinstance(x, ast.Name)}
+
+
+class _Subst(ast.NodeTransformer):
+    """Replace loaded names by the expressions they are bound to.  Inserted expressions are final (they speak about the state
+    at function entry) and are never substituted again; names bound by a comprehension / lambda are left alone."""
+
+    def __init__(self, env):
+        self.env = env
+
+    def visit(self, node):
+        if getattr(node, '_final', False):
+            return node
+        return super().visit(node)
+
+    def visit_Name(self, n):
+        if isinstance(n.ctx, ast.Load) and n.id in self.env:
+            v = copy.deepcopy(self.env[n.id])
+            v._final = True
+            return v
+        return n
+
+    def _scoped(self, n, bound):
+        saved = self.env
+        self.env = {k: v for k, v in saved.items() if k not in bound}
+        if any(names_in(v) & bound for v in self.env.values()):
+            raise Undecided(f'substitution into {u(n)[:60]} would capture a name bound there')
+        self.generic_visit(n)
+        self.env = saved
+        return n
+
+    def visit_ListComp(self, n):
+        return self._scoped(n, _comp_bound(n))
+
+    visit_GeneratorExp = visit_SetComp = visit_DictComp = visit_ListComp
+
+    def visit_Lambda(self, n):
+        a = n.args
+        return self._scoped(n, {x.arg for x in a.posonlyargs + a.args + a.kwonlyargs} | ({a.vararg.arg} if a.vararg else set()) | ({a.kwarg.arg} if a.kwarg else set()))
+
+
+def subst(e, env):
+    return _Subst(env).visit(copy.deepcopy(e)) if env else copy.deepcopy(e)
+
+
+def sym_returns(fi, what):
+    """[(guards, value, return statement)] for every path through a loop-free function: `guards` is the list of (test, polarity)
+    taken, `value` the returned expression over the PARAMETERS (every local replaced by what it holds on that path).  A `for`
+    over a literal tuple / list is the unrolled sequence of its bodies.  Any other statement is outside the vocabulary."""
+    out = []
+
+    def emit(v, guards, s):
+        if isinstance(v, ast.IfExp):
+            emit(v.body, guards + [(v.test, True)], s)
+            emit(v.orelse, guards + [(v.test, False)], s)
+            return
+        if len(out) >= 64:
+            raise Undecided(f'{what}: more than 64 paths')
+        out.append((tuple(guards), v, s))
+
+    def run(stmts, env, guards):
+        for k, s in enumerate(stmts):
+            rest = stmts[k + 1:]
+            if _is_doc(s) or isinstance(s, ast.Pass):
+                continue
+            if isinstance(s, ast.Assign) and len(s.targets) == 1 and isinstance(s.targets[0], ast.Name):
+                env = {**env, s.targets[0].id: subst(s.value, env)}
+                continue
+            if isinstance(s, ast.AnnAssign) and isinstance(s.target, ast.Name) and s.value is not None:
+                env = {**env, s.target.id: subst(s.value, env)}
+                continue
+            if isinstance(s, ast.AugAssign) and isinstance(s.target, ast.Name):
+                cur = ast.Name(id=s.target.id, ctx=ast.Load())
+                env = {**env, s.target.id: subst(ast.BinOp(left=cur, op=s.op, right=s.value), env)}
+                continue
+            if isinstance(s, ast.If):
+                t = subst(s.test, env)
+                run(list(s.body) + rest, env, guards + [(t, True)])
+                run(list(s.orelse) + rest, env, guards + [(t, False)])
+                return
+            if isinstance(s, ast.For) and isinstance(s.iter, (ast.Tuple, ast.List)) and isinstance(s.target, ast.Name) and not s.orelse \
+                    and not any(isinstance(x, ast.Starred) for x in s.iter.elts) \
+                    and not any(isinstance(x, (ast.Break, ast.Continue)) for x in stmts_in(s.body)):
+                unrolled = []
+                for e in s.iter.elts:
+                    v = subst(e, env)       # the tuple is evaluated once, before the first iteration
+                    v._final = True
+                    unrolled.append(ast.Assign(targets=[ast.Name(id=s.target.id, ctx=ast.Store())], value=v, lineno=s.lineno))
+                    unrolled += list(s.body)
+                run(unrolled + rest, env, guards)
+                return
+            if isinstance(s, ast.Return):
+                emit(subst(s.value, env) if s.value is not None else ast.Constant(value=None), guards, s)
+                return
+            raise Undecided(f'{what}: `{u(s).splitlines()[0][:70]}` is outside the vocabulary of the path evaluator (assignments, if / conditional '
+                            f'expressions, loops over a literal tuple, return)')
+        emit(ast.Constant(value=None), guards, None)
+
+    run([s for s in fi.node.body], {}, [])
+    return out
+
+
+def truth(test, asg):
+    """Three-valued truth of a guard under a partial assignment of boolean names: True / False / None (unknown)."""
+    if isinstance(test, ast.Name) and test.id in asg:
+        return asg[test.id]
+    if isinstance(test, ast.Constant):
+        return bool(test.value)
+    if isinstance(test, ast.UnaryOp) and isinstance(test.op, ast.Not):
+        v = truth(test.operand, asg)
+        return None if v is None else not v
+    if isinstance(test, ast.BoolOp):
+        vals = [truth(v, asg) for v in test.values]
+        if isinstance(test.op, ast.And):
+            return False if False in vals else True if all(v is True for v in vals) else None
+        return True if True in vals else False if all(v is False for v in vals) else None
+    return None
+
+
+def feasible(guards, asg):
+    return all(truth(t, asg) in (None, pol) for t, pol in guards)
+
+
+def _unwrap_seq(e):
+    while isinstance(e, ast.Call) and isinstance(e.func, ast.Name) and e.func.id in ('list', 'tuple', 'iter') and len(e.args) == 1 and not e.keywords:
+        e = e.args[0]
+    return e
+
+
+def each_form(e):
+    """(iterable, target, element) of an order-preserving one-to-one elementwise construct, else None:
+    [E for t in IT] / (E for t in IT) / map(f, IT), possibly wrapped in list() / tuple().  No filter, one generator."""
+    e = _unwrap_seq(e)
+    if isinstance(e, (ast.ListComp, ast.GeneratorExp)) and len(e.generators) == 1 and not e.generators[0].ifs and not e.generators[0].is_async:
+        g = e.generators[0]
+        return g.iter, g.target, e.elt
+    if isinstance(e, ast.Call) and isinstance(e.func, ast.Name) and e.func.id == 'map' and len(e.args) == 2 and not e.keywords \
+            and not any(isinstance(a, ast.Starred) for a in e.args):
+        t = ast.Name(id='_x', ctx=ast.Load())
+        return e.args[1], t, ast.Call(func=e.args[0], args=[t], keywords=[])
+    return None
+
+
+def is_filtered(e):
+    """A comprehension that drops or multiplies elements (filter / several generators): a concrete loss of the one-to-one image."""
+    e = _unwrap_seq(e)
+    return isinstance(e, (ast.ListComp, ast.GeneratorExp)) and (len(e.generators) != 1 or bool(e.generators[0].ifs))
+
+
+_PURE = (ast.Name, ast.Constant, ast.Attribute, ast.BinOp, ast.UnaryOp, ast.operator, ast.unaryop, ast.expr_context, ast.Subscript, ast.Tuple)
+
+
+def _pure(v):
+    for n in ast.walk(v):
+        if isinstance(n, ast.Call):
+            if not (isinstance(n.func, ast.Name) and n.func.id == 'len' and len(n.args) == 1 and not n.keywords):
+                return False
+        elif not isinstance(n, _PURE):
+            return False
+    return True
+
+
+def expand_locals(fi, expr, stmt, depth=0):
+    """`expr` as evaluated at `stmt`, with every local that only names a side-effect-free expression (n = len(xs), g = db.genomes)
+    replaced by that expression - provided the operands of that expression are not rebound between the definition and `stmt`."""
+    bound = set()
+    for n in ast.walk(expr):
+        if isinstance(n, (ast.ListComp, ast.GeneratorExp, ast.SetComp, ast.DictComp)):
+            bound |= _comp_bound(n)
+
+    class T(ast.NodeTransformer):
+        def visit_Name(self, n):
+            if not isinstance(n.ctx, ast.Load) or n.id in bound or depth > 4:
+                return n
+            d = reaching_def(fi.node, n.id, stmt)
+            v = def_value(d) if d not in (None, PARAM, AMBIGUOUS) else None
+            if v is None or not _pure(v):
+                return n
+            for nm in names_in(v):
+                if reaching_def(fi.node, nm, d) is not reaching_def(fi.node, nm, stmt):
+                    return n
+            return expand_locals(fi, v, d, depth + 1)
+
+    return T().visit(copy.deepcopy(expr))
+
+
+def range_len(fi, call, stmt):
+    """Number of elements of range(...) as an affine form over expanded locals (None when not a unit-step range)."""
+    if not (isinstance(call, ast.Call) and isinstance(call.func, ast.Name) and call.func.id == 'range' and not call.keywords and 1 <= len(call.args) <= 3):
+        return None
+    if len(call.args) == 3 and not is_const(call.args[2], 1):
+        return None
+    a = [Aff.try_of(expand_locals(fi, x, stmt)) for x in call.args[:2]]
+    if any(x is None for x in a):
+        return None
+    return a[0] if len(a) == 1 else a[1].sub(a[0])
 
 
 def check_sequence_files(ctx):
@@ -102,16 +314,35 @@ def check_labels(ctx):
     rep, m = ctx.rep, ctx.model
     fi = m.func(f'{CM}.get_file_id')
     rep.functions.add(fi.qualname)
-    gm = guard_map(fi.node)
     p = fi.params()
-    assigns = [s for s in stmts_in(fi.node.body) if isinstance(s, ast.Assign)]
-    var = u(assigns[0].targets[0]) if assigns else None
-    ok0 = bool(assigns) and u(assigns[0].value) == f'os.fspath({p[0]})'
-    base = [s for s in assigns if u(s.value) == f'os.path.basename({var})' and ('true', p[1]) in path_atoms(gm[s])]
-    ext = [s for s in assigns if isinstance(s.value, ast.Call) and m.resolve_call(fi, s.value) == f'{CM}.strip_seq_file_ext' and [u(a) for a in s.value.args] == [var] and ('true', p[2]) in path_atoms(gm[s])]
-    rets = [s for s in stmts_in(fi.node.body) if isinstance(s, ast.Return)]
-    rep.add('A2', fi.site(), 'label = path string -> basename (directory stripped) -> sequence-file extensions stripped', ok0 and len(base) == 1 and len(ext) == 1 and base[0].lineno < ext[0].lineno
-            and len(rets) == 1 and u(rets[0].value) == var, expected='os.fspath -> os.path.basename -> strip_seq_file_ext', found=[u(s) for s in assigns], stmt='label derivation')
+    # label derivation, decided on the value returned along every path (over the parameters), whatever the statement shape:
+    # with both flags set (the defaults the CLI uses) the label is strip_seq_file_ext(basename(fspath(path))); with a flag
+    # cleared only a prefix of that chain is applied, and a stage is never applied when its flag is definitely cleared
+    full = ['os.fspath', 'os.path.basename', f'{CM}.strip_seq_file_ext']
+
+    def stages(v):
+        out = []
+        while isinstance(v, ast.Call) and len(v.args) == 1 and not v.keywords and not isinstance(v.args[0], ast.Starred):
+            out.append(m.resolve_call(fi, v) or u(v.func))
+            v = v.args[0]
+        return list(reversed(out)) if isinstance(v, ast.Name) and v.id == p[0] else None
+
+    paths = sym_returns(fi, 'get_file_id')
+    okl, ndef, found = True, 0, []
+    for guards, v, _ in paths:
+        st = stages(v)
+        found.append((sorted(path_atoms(guards)), u(v)))
+        if feasible(guards, {p[1]: True, p[2]: True}):
+            ndef += 1
+            okl = okl and st == full
+        else:
+            okl = okl and bool(st) and st == full[:len(st)]
+            if st and not feasible(guards, {p[1]: True}):
+                okl = okl and full[1] not in st
+            if st and not feasible(guards, {p[2]: True}):
+                okl = okl and full[2] not in st
+    rep.add('A2', fi.site(), 'label = path string -> basename (directory stripped) -> sequence-file extensions stripped', okl and ndef >= 1,
+            expected='strip_seq_file_ext(os.path.basename(os.fspath(path))) when strip_dir and strip_ext; otherwise a prefix of that chain', found=found, stmt='label derivation')
     for name in ('strip_dir', 'strip_ext'):
         d = fi.param_default(name)
         rep.add('A2', fi.site(), f'{name} defaults to True', d is not None and is_const(d, True), expected='True', found=u(d), stmt=f'{name} default')
@@ -119,35 +350,102 @@ def check_labels(ctx):
     for name in ('strip_dir', 'strip_ext'):
         d = gsf.param_default(name)
         rep.add('A2', gsf.site(), f'get_sequence_files: {name} defaults to True', d is not None and is_const(d, True), expected='True', found=u(d), stmt=f'gsf {name} default')
-    fs = m.func(f'{CM}.strip_seq_file_ext')
-    rep.functions.add(fs.qualname)
-    calls = [c for c in calls_in(fs.node) if m.resolve_call(fs, c) == f'{CM}.strip_extensions']
-    order = [m.resolve(fs.module, c.args[1]) for c in calls if len(c.args) == 2]
-    rep.add('A2', fs.site(), 'the gzip extension is stripped before the FASTA extension (genome.fasta.gz -> genome)', order == [f'{CM}.GZIP_EXTENSIONS', f'{CM}.FASTA_EXTENSIONS'], expected='GZIP then FASTA', found=order, stmt='strip order')
-    chain = [s for s in fs.node.body if isinstance(s, ast.Assign)]
-    okc = len(chain) == 2 and all(u(s.targets[0]) == fs.params()[0] and u(s.value.args[0]) == fs.params()[0] for s in chain) and u(fs.node.body[-1]) == f'return {fs.params()[0]}'
-    rep.add('A2', fs.site(), 'each stripping step works on the result of the previous one', okc, expected='filename = strip(filename, GZIP); filename = strip(filename, FASTA); return filename', found=[u(s) for s in fs.node.body[-3:]], stmt='strip chain')
     cm_mod = m.module(CM)
     gz = m.const_value(cm_mod, cm_mod.assigns['GZIP_EXTENSIONS'])
     fa = m.const_value(cm_mod, cm_mod.assigns['FASTA_EXTENSIONS'])
+    # strip_seq_file_ext: the returned value is strip_extensions(strip_extensions(<filename>, <gzip table>), <FASTA table>) on every path
+    fs = m.func(f'{CM}.strip_seq_file_ext')
+    rep.functions.add(fs.qualname)
+    order, chained, shown, opaque = [], True, [], []
+    for guards, v, _ in sym_returns(fs, 'strip_seq_file_ext'):
+        layers = []
+        shown.append(u(v))
+        while isinstance(v, ast.Call) and m.resolve_call(fs, v) == f'{CM}.strip_extensions' and len(v.args) == 2 and not v.keywords:
+            layers.append(v.args[1])
+            v = v.args[0]
+        chained = chained and isinstance(v, ast.Name) and v.id == fs.params()[0] and len(layers) == 2
+        tables = []
+        for t in reversed(layers):
+            try:
+                tables.append(tuple(m.const_value(fs.module, t)))
+            except Undecided:
+                tables.append(None)
+                opaque.append(u(t))
+        order.append(tables)
+    want = [tuple(gz), tuple(fa)]
+    rep.add('A2', fs.site(), 'each stripping step works on the result of the previous one', bool(order) and chained, expected='strip_extensions(strip_extensions(filename, GZIP), FASTA)', found=shown, stmt='strip chain')
+    # a table that is not a constant cannot be compared (undecidable) - unless the chain itself is already broken, which stands
+    rep.require(not opaque, f'strip_seq_file_ext: the extension table {opaque[:1]} is not a constant')
+    rep.add('A2', fs.site(), 'the gzip extension is stripped before the FASTA extension (genome.fasta.gz -> genome)', bool(order) and all(o == want for o in order), expected='GZIP then FASTA', found=shown, stmt='strip order')
     rep.add('A2', (cm_mod.relpath, cm_mod.assigns['FASTA_EXTENSIONS'].lineno, f'{CM}.FASTA_EXTENSIONS'), 'extension tables: .gz; the usual FASTA suffixes, longer before their prefixes (.fasta before .fa)',
             tuple(gz) == ('.gz',) and '.fasta' in fa and '.fa' in fa and '.fna' in fa and all(not (b.startswith(a) and fa.index(a) < fa.index(b)) for a in fa for b in fa if a != b),
             expected="('.gz',) / .fasta ... .fa", found=(gz, fa), stmt='extension tables')
+    check_strip_extensions(ctx)
+
+
+def check_strip_extensions(ctx):
+    """strip_extensions is a first-match search: the FIRST element e of `extensions` with filename.endswith(e) decides, the
+    result is filename[:-len(e)], and filename itself when nothing matches.  Three spellings of such a search are evaluated:
+    an early `return` in the loop, an assignment followed by `break`, and next(<generator over the matches>, None)."""
+    rep, m = ctx.rep, ctx.model
     fe = m.func(f'{CM}.strip_extensions')
     rep.functions.add(fe.qualname)
     gme = guard_map(fe.node)
     fn, exts = fe.params()[:2]
     rets = [s for s in stmts_in(fe.node.body) if isinstance(s, ast.Return)]
-    inner = [r for r in rets if len(block_path(fe.node, r)) > 1]
-    oke = False
-    if len(inner) == 1:
-        at = path_atoms(gme[inner[0]])
-        loop = next((o for (_, _, o) in block_path(fe.node, inner[0]) if isinstance(o, ast.For)), None)
-        if loop is not None and u(loop.iter) == exts:
-            e = u(loop.target)
-            oke = at == {('true', f'{fn}.endswith({e})')} and u(inner[0].value) == f'{fn}[:-len({e})]'
-    rep.add('A2', fe.site(), 'at most one matching suffix is removed, exactly its length', oke and u(rets[-1].value) == fn and len(rets) == 2, expected=f'if {fn}.endswith(ext): return {fn}[:-len(ext)] ... return {fn}',
-            found=[u(r.value) for r in rets], stmt='strip_extensions')
+    loops = [s for s in stmts_in(fe.node.body) if isinstance(s, (ast.For, ast.While))]
+    nexts = [c for c in calls_in(fe.node) if isinstance(c.func, ast.Name) and c.func.id == 'next']
+    stores = [s for s in stmts_in(fe.node.body) if isinstance(s, (ast.Assign, ast.AugAssign, ast.AnnAssign)) and fn in {n.id for t in (s.targets if isinstance(s, ast.Assign) else [s.target]) for n in ast.walk(t) if isinstance(n, ast.Name)}]
+    it = e = cond = hit = miss = None
+    if len(loops) == 1 and isinstance(loops[0], ast.For) and not nexts:
+        loop = loops[0]
+        rep.require(isinstance(loop.target, ast.Name) and not loop.orelse and loop in fe.node.body, f'strip_extensions: loop `{u(loop).splitlines()[0]}` is not a plain top-level for loop')
+        it, e = u(loop.iter), loop.target.id
+        inner = [r for r in rets if any(o is loop for (_, _, o) in block_path(fe.node, r))]
+        outer = [r for r in rets if not any(r is x for x in inner)]
+        brk = [s for s in stmts_in(loop.body) if isinstance(s, ast.Break)]
+        if len(inner) == 1 and not brk and not stores:
+            cond, hit = path_atoms(gme[inner[0]]), u(inner[0].value)
+        elif not inner and len(brk) == 1 and len(stores) == 1 and isinstance(stores[0], ast.Assign):
+            blk = block_path(fe.node, brk[0])[-1][0]
+            # the match is recorded and the search stops at once: [filename = <hit>, break]
+            if len(blk) == 2 and blk[0] is stores[0]:
+                cond, hit = path_atoms(gme[brk[0]]), u(stores[0].value)
+            else:
+                cond, hit = path_atoms(gme[stores[0]]), f'{u(stores[0].value)} (search not stopped by the break)'
+        elif not inner and not brk and stores:
+            cond, hit = path_atoms(gme[stores[0]]), f'{u(stores[0].value)} (search continues after a match)'
+        else:
+            rep.require(False, f'strip_extensions: the search loop has {len(inner)} returns, {len(brk)} breaks and {len(stores)} stores to {fn}: not a first-match search the rule can evaluate')
+        miss = u(outer[0].value) if len(outer) == 1 and fe.node.body[-1] is outer[0] else [u(r.value) for r in outer]
+    elif len(nexts) == 1 and not loops and not stores:
+        c = nexts[0]
+        gen = c.args[0] if c.args else None
+        rep.require(isinstance(gen, ast.GeneratorExp) and len(gen.generators) == 1 and not gen.generators[0].is_async and isinstance(gen.generators[0].target, ast.Name)
+                    and len(c.args) == 2 and is_none(c.args[1]) and not c.keywords,
+                    f'strip_extensions: `{u(c)[:80]}` is not next(<generator expression>, None)')
+        g = gen.generators[0]
+        it, e = u(g.iter), g.target.id
+        cond = set()
+        for t in g.ifs:
+            cond |= atoms(t, True) or {('?', u(t))}
+        N = u(c)
+        paths = sym_returns(fe, 'strip_extensions')
+        for guards, v, _ in paths:
+            at = path_atoms(guards)
+            if at == {('is',) + tuple(sorted(['None', N]))} and miss is None:
+                miss = u(v)
+            elif at == {('isnot',) + tuple(sorted(['None', N]))} and hit is None:
+                hit = u(v).replace(N, e) if u(gen.elt) == e else f'{u(v)} with {N} yielding {u(gen.elt)}'
+            else:
+                rep.require(False, f'strip_extensions: return under {sorted(at)} is not decided by `{N} is None` alone')
+    elif not loops and not nexts:
+        pass    # no search at all: reported below
+    else:
+        rep.require(False, f'strip_extensions: {len(loops)} loops / {len(nexts)} next() calls: not a first-match search the rule can evaluate')
+    oke = it == exts and cond == {('true', f'{fn}.endswith({e})')} and hit == f'{fn}[:-len({e})]' and miss == fn
+    rep.add('A2', fe.site(), 'at most one matching suffix is removed, exactly its length', oke, expected=f'first ext in {exts} with {fn}.endswith(ext): {fn}[:-len(ext)]; none: {fn}',
+            found=dict(over=it, condition=sorted(cond) if cond is not None else None, match=hit, no_match=miss), stmt='strip_extensions')
 
 
 def check_query_paths(ctx):
@@ -187,8 +485,9 @@ def check_query_paths(ctx):
     rep.add('A5', fc.site(q), 'signature-file channel: one input per stored id, in stored order, and the signatures of the same object are queried', okq, expected=f'inputs = [QueryInput(id) for id in {u(sv)}.ids]; query(db, {u(sv)}, ...)',
             found=(u(sv), iroot), stmt='sigfile labels')
     idv = def_value(reaching_def(fc.node, inp.id, qst)) if isinstance(inp, ast.Name) else inp
-    okl = isinstance(idv, ast.ListComp) and isinstance(idv.elt, ast.Call) and m.resolve_call(fc, idv.elt) == 'gambit.query.QueryInput' and [u(a) for a in idv.elt.args] == [u(idv.generators[0].target)]
-    rep.add('A5', fc.site(q), 'each label is the stored id itself', okl, expected='QueryInput(id)', found=u(idv), stmt='sigfile label value')
+    ief = each_form(idv) if idv is not None else None
+    okl = ief is not None and isinstance(ief[2], ast.Call) and m.resolve_call(fc, ief[2]) == 'gambit.query.QueryInput' and [u(a) for a in ief[2].args] == [u(ief[1])] and not ief[2].keywords
+    rep.add('A5', fc.site(q), 'each label is the stored id itself', okl, expected='QueryInput(id) for every stored id', found=u(idv), stmt='sigfile label value')
     sd = def_value(reaching_def(fc.node, sv.id, qst)) if isinstance(sv, ast.Name) else None
     rep.add('A5', fc.site(q), 'the queried signatures are the loaded signature file', isinstance(sd, ast.Call) and (m.resolve_call(fc, sd) or '').endswith('load_signatures') and [u(a) for a in sd.args] == ['sigfile'], expected='load_signatures(sigfile)',
             found=u(sd), stmt='sigfile source')
@@ -223,9 +522,9 @@ def check_query_paths(ctx):
     okr = roots.get('no labels') == filesp and roots.get('labels') == f'zip_strict(file_labels, {filesp})'
     rep.add('A3', fq.site(qcall), 'inputs are the files themselves, or labels STRICTLY zipped with the files (a length mismatch is an error, never a silent truncation)', okr, expected=f'{filesp} | zip_strict(file_labels, {filesp})',
             found=roots, stmt='inputs aligned')
-    if isinstance(zipped, ast.ListComp):
-        e = zipped.elt
-        tg = zipped.generators[0].target
+    zef = each_form(zipped) if zipped is not None else None
+    if zef is not None:
+        _, tg, e = zef
         oke = isinstance(e, ast.Call) and m.resolve_call(fq, e) == 'gambit.query.QueryInput' and isinstance(tg, ast.Tuple) and [u(a) for a in e.args] == [u(x) for x in tg.elts]
         rep.add('A3', fq.site(zipped), 'each input carries its own label and its own file', oke, expected='QueryInput(label, file) for label, file in zip_strict(file_labels, files)', found=u(zipped), stmt='input pairing')
     rep.add('A3', fq.site(qcall), 'the same database is queried and the caller parameters are forwarded', u(qcall.args[0]) == dbp and u(qcall.args[2]) == fq.params()[2], expected=f'query({dbp}, sigs, params, ...)', found=u(qcall)[:60], stmt='query operands')
@@ -246,44 +545,95 @@ def check_query(ctx):
     ret0 = fi.node.body[-1]
     items_name = u(get_kw(ret0.value, 'items')) if isinstance(ret0, ast.Return) and isinstance(ret0.value, ast.Call) and get_kw(ret0.value, 'items') is not None else 'items'
     items = [s for s in stmts_in(fi.node.body) if isinstance(s, ast.Assign) and u(s.targets[0]) == items_name]
-    rep.require(len(items) == 1 and isinstance(items[0].value, ast.ListComp), 'query: items is not a single list comprehension')
+    rep.require(len(items) == 1, 'query: items is not assigned exactly once')
     lc = items[0].value
-    g = lc.generators[0]
-    oken = isinstance(g.iter, ast.Call) and u(g.iter.func) == 'enumerate' and len(g.iter.args) == 1 and isinstance(g.target, ast.Tuple) and not g.ifs and len(lc.generators) == 1
-    rep.add('A4', fi.site(lc), 'one result item per input, in input order (enumerate, no filter)', oken, expected='for i, input in enumerate(inputs)', found=u(g.iter), stmt='items enumerate')
-    rep.require(oken, 'query: items comprehension shape')
-    i, inp = (u(e) for e in g.target.elts)
-    e = lc.elt
-    oke = isinstance(e, ast.Call) and m.resolve_call(fi, e) == 'gambit.query.get_result_item' and len(e.args) == 4 and u(e.args[0]) == dbp and u(e.args[3]) == inp
-    dm = e.args[2] if oke else None
-    okr = isinstance(dm, ast.Subscript) and isinstance(dm.value, ast.Name) and u(dm) in (f'{u(dm.value)}[{i}, :]', f'{u(dm.value)}[{i}]')
-    dmat_name = u(dm.value) if isinstance(dm, ast.Subscript) else None
-    rep.add('A4', fi.site(lc), 'item i is built from row i of the distance matrix and input i (same index)', oke and okr, expected=f'get_result_item({dbp}, params, dmat[{i}, :], {inp})', found=u(e), stmt='row/input pairing')
-    src_root = align.source(m, fi, g.iter.args[0], items[0])[0]
+    if is_filtered(lc):
+        rep.add('A4', fi.site(lc), 'one result item per input, in input order (no filter)', False, expected='one generator, no filter', found=u(lc)[:120], stmt='items enumerate')
+    ef = each_form(lc)
+    rep.require(ef is not None and (isinstance(lc, ast.ListComp) or (isinstance(lc, ast.Call) and u(lc.func) in ('list', 'tuple'))),
+                'query: items is not an elementwise list construction (list comprehension / list(map(...)))')
+    it, tgt, e = ef
     mats = [c for c in calls_in(fi.node) if m.resolve_call(fi, c) == 'gambit.metric.jaccarddist_matrix']
     rep.require(len(mats) == 1, 'query: expected one jaccarddist_matrix call')
     mc = mats[0]
     mst = next(s for s in fi.node.body if any(x is mc for x in ast.walk(s)))
+    mvar = mst.targets[0].id if isinstance(mst, ast.Assign) and len(mst.targets) == 1 and isinstance(mst.targets[0], ast.Name) and mst.value is mc else None
+
+    def is_matrix(x):
+        return mvar is not None and isinstance(x, ast.Name) and x.id == mvar and reaching_def(fi.node, mvar, items[0]) is mst
+
+    # how input k and matrix row k are brought together: a position counter (enumerate) indexing the matrix, or the matrix rows
+    # iterated in lock step with the inputs (zip).  rows / inps: the expressions that denote "row k" / "input k" in the element.
+    tn = [x.id for x in tgt.elts] if isinstance(tgt, ast.Tuple) and all(isinstance(x, ast.Name) for x in tgt.elts) else [tgt.id] if isinstance(tgt, ast.Name) else []
+    fname = u(it.func) if isinstance(it, ast.Call) else None
+    src = None
+    row_of = inp_of = lambda x: False     # noqa: E731
+    if fname == 'enumerate' and len(tn) == 2 and 1 <= len(it.args) <= 2 and not any(isinstance(a, ast.Starred) for a in it.args) and all(k.arg == 'start' for k in it.keywords):
+        start = Aff.try_of(it.args[1] if len(it.args) == 2 else get_kw(it, 'start') if it.keywords else ast.Constant(value=0))
+        rep.require(start is not None, f'query: enumerate start {u(it)} is not affine')
+        src = it.args[0]
+        want = Aff({tn[0]: 1}).sub(start)
+
+        def row_of(x):
+            if not (isinstance(x, ast.Subscript) and is_matrix(x.value)):
+                return False
+            sl = x.slice
+            if isinstance(sl, ast.Tuple):
+                if not (len(sl.elts) == 2 and isinstance(sl.elts[1], ast.Slice) and sl.elts[1].lower is None and sl.elts[1].upper is None and sl.elts[1].step is None):
+                    return False
+                sl = sl.elts[0]
+            return not isinstance(sl, ast.Slice) and Aff.try_of(sl) == want
+
+        def inp_of(x):
+            return isinstance(x, ast.Name) and x.id == tn[1]
+        pairing = f'position counter {tn[0]} from {u(it)}'
+    elif (fname == 'zip' or (isinstance(it, ast.Call) and m.resolve_call(fi, it) == 'gambit.util.misc.zip_strict')) and len(tn) == 2 and len(it.args) == 2 \
+            and not any(isinstance(a, ast.Starred) for a in it.args) and all(k.arg == 'strict' for k in it.keywords):
+        ks = [k for k in (0, 1) if is_matrix(it.args[k])]
+        if len(ks) == 1:
+            k = ks[0]
+            src = it.args[1 - k]
+
+            def row_of(x):
+                return isinstance(x, ast.Name) and x.id == tn[k]
+
+            def inp_of(x):
+                return isinstance(x, ast.Name) and x.id == tn[1 - k]
+        pairing = f'lock-step iteration {u(it)}'
+    else:
+        rep.require(False, f'query: items are built over `{u(it)[:80]}`: neither enumerate(<inputs>) nor zip(<inputs>, <matrix>)')
+    rep.add('A4', fi.site(lc), 'one result item per input, in input order (no filter)', src is not None or fname == 'zip', expected='enumerate(<inputs>) / zip(<inputs>, <distance matrix>)', found=u(it), stmt='items enumerate')
+    oke = isinstance(e, ast.Call) and m.resolve_call(fi, e) == 'gambit.query.get_result_item' and len(e.args) == 4 and not e.keywords and u(e.args[0]) == dbp
+    rep.add('A4', fi.site(lc), 'item k is built from row k of the distance matrix and input k (same position)', oke and src is not None and row_of(e.args[2]) and inp_of(e.args[3]),
+            expected=f'get_result_item({dbp}, params, <row k of the matrix>, <input k>)', found=f'{u(e)} via {pairing}', stmt='row/input pairing')
+    rep.require(src is not None, f'query: no operand of {u(it)} is the distance matrix')
+    src_root = align.source(m, fi, src, items[0])[0]
     rows_root = align.source(m, fi, mc.args[0], mst)[0]
     rep.add('A4', fi.site(mc), 'matrix rows follow the query signatures in the given order', rows_root == qp, expected=qp, found=rows_root, stmt='matrix rows')
-    rep.add('A4', fi.site(mc), 'the rows classified are rows of that distance matrix', isinstance(mst, ast.Assign) and u(mst.targets[0]) == dmat_name, expected='dmat = jaccarddist_matrix(...)', found=(u(mst.targets[0]) if isinstance(mst, ast.Assign) else None, dmat_name),
-            stmt='matrix variable')
+    rep.add('A4', fi.site(mc), 'the rows classified are rows of that distance matrix', mvar is not None, expected='dmat = jaccarddist_matrix(...)', found=u(mst).splitlines()[0][:80], stmt='matrix variable')
+    nq = Aff({f'len({qp})': 1})
+
+    def numbering(s_):
+        """Is this definition one label per query, made from a counter (range of exactly len(queries) values)?"""
+        f_ = each_form(s_.value)
+        return f_ is not None and range_len(fi, f_[0], s_) == nq
     if src_root == '?inputs':
         # assigned on both sides of `if inputs is not None`: every definition must be an order-preserving image of the
         # parameter, or the default numbering over the queries
         roots = set()
         for s_ in stmts_in(fi.node.body):
             if isinstance(s_, ast.Assign) and u(s_.targets[0]) == 'inputs':
-                roots.add(align.source(m, fi, s_.value, s_)[0])
-        src_root = 'inputs' if roots == {'inputs', f'range(len({qp}))'} else f'{sorted(roots)}'
+                roots.add('numbering of the queries' if numbering(s_) else align.source(m, fi, s_.value, s_)[0])
+        src_root = 'inputs' if roots == {'inputs', 'numbering of the queries'} else f'{sorted(roots)}'
     rep.add('A4', fi.site(lc), 'the iterated inputs are the caller inputs in order (converted one-to-one; progress wrapper transparent)', src_root == 'inputs', expected='inputs', found=src_root, stmt='inputs order')
-    # len check
+    # len check (a local that only names len(queries) is the same quantity)
     rs = [s for s in stmts_in(fi.node.body) if isinstance(s, ast.Raise)]
-    okl = any(('ne', 'len(inputs)', f'len({qp})') in path_atoms(gm[r]) and raised_name(r) == 'ValueError' for r in rs)
-    rep.add('A4', fi.site(rs[0] if rs else None), 'a different number of inputs and queries is an error (no mislabelled or dropped row)', okl, expected=f'raise ValueError when len(inputs) != len({qp})', found=[sorted(path_atoms(gm[r])) for r in rs],
+    ratoms = {id(r): path_atoms(gm[r], key=lambda x, r=r: u(expand_locals(fi, x, r))) for r in rs}
+    okl = any(('ne', 'len(inputs)', f'len({qp})') in ratoms[id(r)] and raised_name(r) == 'ValueError' for r in rs)
+    rep.add('A4', fi.site(rs[0] if rs else None), 'a different number of inputs and queries is an error (no mislabelled or dropped row)', okl, expected=f'raise ValueError when len(inputs) != len({qp})', found=[sorted(ratoms[id(r)]) for r in rs],
             stmt='length check')
     dflt = [s for s in stmts_in(fi.node.body) if isinstance(s, ast.Assign) and u(s.targets[0]) == 'inputs' and ('is', 'None', 'inputs') in path_atoms(gm[s])]
-    okd = len(dflt) == 1 and isinstance(dflt[0].value, ast.ListComp) and u(dflt[0].value.generators[0].iter) == f'range(len({qp}))'
+    okd = len(dflt) == 1 and numbering(dflt[0])
     rep.add('A4', fi.site(dflt[0] if dflt else None), 'without inputs, one numbered label per query', okd, expected=f'[QueryInput(str(i + 1)) for i in range(len({qp}))]', found=[u(d.value) for d in dflt], stmt='default labels')
     rep.account_returns('A4', fi, [fi.node.body[-1]] if isinstance(fi.node.body[-1], ast.Return) else [], 'results object')
     ql = [s for s in fi.node.body if isinstance(s, ast.Assign) and u(s.targets[0]) == qp]
@@ -381,14 +731,149 @@ def check_transparency(ctx):
             expected='chunksize=params.chunksize', found=u(cs), stmt='chunksize wiring')
 
 
+def _is_generator(fi):
+    return any(isinstance(n, (ast.Yield, ast.YieldFrom)) for n in ast.walk(fi.node))
+
+
+def seq_events(m, fi, e, stmt, what, depth=0):
+    """The rows an order-preserving sequence expression delivers, in order: ('one', row) for a single row, ('each', iterable,
+    target, row) for one row per element of `iterable`.  Follows locals, list()/tuple()/iter(), comprehensions / map, literal
+    lists, concatenation (+, itertools.chain) and calls of generator functions of the package (their yields, with the call's
+    arguments substituted for the parameters).  Anything else is outside the vocabulary."""
+    e = _unwrap_seq(e)
+    rep_reason = f'{what}: rows delivered by `{u(e)[:80]}` cannot be enumerated (not a comprehension / map / literal / concatenation / generator of the package)'
+    if depth > 4:
+        raise Undecided(rep_reason)
+    ef = each_form(e)
+    if ef is not None:
+        return [('each', ef[0], ef[1], ef[2], fi)]
+    if is_filtered(e):
+        return [('each', e, None, None, fi)]
+    if isinstance(e, (ast.List, ast.Tuple)) and not any(isinstance(x, ast.Starred) for x in e.elts):
+        return [('one', x, None, None, fi) for x in e.elts]
+    if isinstance(e, ast.BinOp) and isinstance(e.op, ast.Add):
+        return seq_events(m, fi, e.left, stmt, what, depth + 1) + seq_events(m, fi, e.right, stmt, what, depth + 1)
+    if isinstance(e, ast.Name):
+        d = reaching_def(fi.node, e.id, stmt) if stmt is not None else None
+        v = def_value(d) if d not in (None, PARAM, AMBIGUOUS) else None
+        if v is None:
+            raise Undecided(rep_reason)
+        return seq_events(m, fi, v, d, what, depth + 1)
+    if isinstance(e, ast.Call):
+        if (m.resolve_call(fi, e) or u(e.func)) in ('itertools.chain', 'chain') and not e.keywords and not any(isinstance(a, ast.Starred) for a in e.args):
+            return [ev for a in e.args for ev in seq_events(m, fi, a, stmt, what, depth + 1)]
+        g = m.functions.get(m.resolve_call(fi, e))
+        if g is not None and _is_generator(g) and not e.keywords and not any(isinstance(a, ast.Starred) for a in e.args):
+            params = [x.arg for x in g.node.args.posonlyargs + g.node.args.args]
+            if g.cls is not None and params and params[0] in ('self', 'cls') and isinstance(e.func, ast.Attribute):
+                env = {params[0]: e.func.value}
+                params = params[1:]
+            else:
+                env = {}
+            if len(params) != len(e.args) or g.node.args.kwonlyargs or g.node.args.vararg or g.node.args.kwarg:
+                raise Undecided(rep_reason)
+            env.update(zip(params, e.args))
+            out = []
+            for kind, a, t, r, _ in gen_events(m, g, what, depth + 1):
+                bound = names_in(t) if t is not None else set()
+                out.append((kind, subst(a, env) if isinstance(a, ast.AST) else a, t, subst(r, {k: v for k, v in env.items() if k not in bound}) if r is not None else None, fi))
+            return out
+    raise Undecided(rep_reason)
+
+
+def gen_events(m, g, what, depth):
+    """Rows yielded by a generator function, in order (expressions over its own parameters and locals)."""
+    out = []
+    for s in g.node.body:
+        if _is_doc(s) or isinstance(s, ast.Pass) or (isinstance(s, ast.Assign) and not any(isinstance(n, (ast.Yield, ast.YieldFrom)) for n in ast.walk(s))):
+            continue
+        if isinstance(s, ast.Expr) and isinstance(s.value, ast.Yield) and s.value.value is not None:
+            out.append(('one', _resolve_local(g, s.value.value, s), None, None, g))
+        elif isinstance(s, ast.Expr) and isinstance(s.value, ast.YieldFrom):
+            out += seq_events(m, g, s.value.value, s, what, depth)
+        elif isinstance(s, ast.For) and not s.orelse and len(s.body) == 1 and isinstance(s.body[0], ast.Expr) and isinstance(s.body[0].value, ast.Yield) and s.body[0].value.value is not None:
+            out.append(('each', _resolve_local(g, s.iter, s), s.target, s.body[0].value.value, g))
+        else:
+            raise Undecided(f'{what}: generator {g.qualname}: `{u(s).splitlines()[0][:70]}` is neither a yield, a yield from, nor a loop yielding one row per element')
+    return out
+
+
+def _resolve_local(fi, e, stmt):
+    """A bare local name stands for the expression it was bound to (one step per name, unique reaching definition)."""
+    for _ in range(4):
+        if not isinstance(e, ast.Name):
+            break
+        d = reaching_def(fi.node, e.id, stmt)
+        v = def_value(d) if d not in (None, PARAM, AMBIGUOUS) else None
+        if v is None:
+            break
+        e, stmt = v, d
+    return e
+
+
+def csv_row_events(m, fe, what):
+    """Every row handed to the csv writer by the export method, in program order."""
+    def is_writer(x, at):
+        x = _resolve_local(fe, x, at)
+        return isinstance(x, ast.Call) and (m.resolve_call(fe, x) or u(x.func)) == 'csv.writer'
+
+    def write_call(s, at):
+        c = s.value if isinstance(s, ast.Expr) else None
+        if isinstance(c, ast.Call) and isinstance(c.func, ast.Attribute) and c.func.attr in ('writerow', 'writerows') and is_writer(c.func.value, at) and len(c.args) == 1 and not c.keywords:
+            return c
+        return None
+
+    def mentions_writer(s):
+        return any(isinstance(n, ast.Attribute) and n.attr in ('writerow', 'writerows', 'write', 'writelines') for n in ast.walk(s)) \
+            or any(isinstance(n, ast.Call) and isinstance(n.func, ast.Name) and n.func.id == 'print' for n in ast.walk(s))
+
+    out = []
+
+    def block(stmts):
+        for s in stmts:
+            c = write_call(s, s)
+            if c is not None and c.func.attr == 'writerow':
+                out.append(('one', _resolve_local(fe, c.args[0], s), None, None, fe))
+            elif c is not None:
+                out.extend(seq_events(m, fe, c.args[0], s, what))
+            elif isinstance(s, ast.With):
+                block(s.body)
+            elif isinstance(s, ast.For) and mentions_writer(s):
+                # one row per element: the body may name the row first, the last statement writes it
+                last = s.body[-1]
+                c = write_call(last, last)
+                pre = s.body[:-1]
+                okb = c is not None and c.func.attr == 'writerow' and not s.orelse and all(isinstance(x, ast.Assign) and len(x.targets) == 1 and isinstance(x.targets[0], ast.Name) and not mentions_writer(x) for x in pre)
+                if not okb:
+                    raise Undecided(f'{what}: loop `{u(s).splitlines()[0][:70]}` does not write exactly one row per element as its last statement')
+                env = {}
+                for x in pre:
+                    env[x.targets[0].id] = subst(x.value, env)
+                out.append(('each', _resolve_local(fe, s.iter, s), s.target, subst(c.args[0], env), fe))
+            elif mentions_writer(s) and not (isinstance(s, ast.Assign) and is_writer(s.value, s)):
+                raise Undecided(f'{what}: `{u(s).splitlines()[0][:70]}` writes output in a way the row enumeration does not follow')
+    block(fe.node.body)
+    return out
+
+
 def check_exporters(ctx):
     rep, m = ctx.rep, ctx.model
     fe = m.func('gambit.results.CSVResultsExporter.export')
     rep.functions.add(fe.qualname)
-    loops = [s for s in stmts_in(fe.node.body) if isinstance(s, ast.For)]
-    wn = next((u(s.targets[0]) for s in stmts_in(fe.node.body) if isinstance(s, ast.Assign) and isinstance(s.value, ast.Call) and u(s.value.func) == 'csv.writer'), 'writer')
-    ok = len(loops) == 1 and u(loops[0].iter) == f'{fe.params()[2]}.items' and len(loops[0].body) == 1 and u(loops[0].body[0]) == f'{wn}.writerow(self.get_row({u(loops[0].target)}))'
-    rep.add('A8', fe.site(loops[0] if loops else None), 'CSV: one row per result item, in item order', ok, expected='for item in results.items: writer.writerow(self.get_row(item))', found=[u(l)[:80] for l in loops], stmt='csv rows')
+    res = fe.params()[2]
+    ev = csv_row_events(m, fe, 'CSV export')
+    each = [x for x in ev if x[0] == 'each']
+    ok = len(each) == 1
+    if ok:
+        _, itx, tg, row, owner = each[0]
+        ok = u(itx) == f'{res}.items' and isinstance(row, ast.Call) and m.resolve_call(owner, row) == 'gambit.results.CSVResultsExporter.get_row' and isinstance(row.func, ast.Attribute) and u(row.func.value) == 'self' \
+            and [u(a) for a in row.args] == [u(tg)] and not row.keywords
+    # besides the item rows only a header may be written: one single row, before the items, not derived from the results
+    ones = [k for k, x in enumerate(ev) if x[0] == 'one']
+    okh = len(ones) <= 1 and all(k < ev.index(each[0]) for k in ones if each) and all(res not in names_in(ev[k][1]) for k in ones)
+    shown = [f'{u(x[1])[:60]}' if x[0] == 'one' else f'for {u(x[2])} in {u(x[1])[:60]}: {u(x[3])}' for x in ev]
+    site = next((s for s in stmts_in(fe.node.body) if isinstance(s, ast.For)), None)
+    rep.add('A8', fe.site(site), 'CSV: one row per result item, in item order', ok and okh, expected=f'[header]; then self.get_row(item) for item in {res}.items, in order', found=shown, stmt='csv rows')
     fj = m.func('gambit.results.JSONResultsExporter._results_to_json')
     rep.functions.add(fj.qualname)
     body = [s for s in fj.node.body]
@@ -435,6 +920,15 @@ from ..variants import V  # noqa: E402
 _Q = 'src/gambit/query.py'
 _C = 'src/gambit/cli/common.py'
 _CQ = 'src/gambit/cli/query.py'
+_R = 'src/gambit/results.py'
+_GFI_OLD = "\tid = os.fspath(path)\n\tif strip_dir:\n\t\tid = os.path.basename(id)\n\t\tif strip_ext:\n\t\t\tid = strip_seq_file_ext(id)\n\treturn id\n"
+_SSE_OLD = "\tfilename = strip_extensions(filename, GZIP_EXTENSIONS)\n\tfilename = strip_extensions(filename, FASTA_EXTENSIONS)\n\treturn filename\n"
+_SE_OLD = "\tfor ext in extensions:\n\t\tif filename.endswith(ext):\n\t\t\treturn filename[:-len(ext)]\n\treturn filename\n"
+_ITEMS_OLD = "items = [get_result_item(db, params, dmat[i, :], input) for i, input in enumerate(inputs_iter)]"
+_CSV_OLD = "\t\t\tfor item in results.items:\n\t\t\t\twriter.writerow(self.get_row(item))\n"
+_EXPORT_OLD = ("\t\twith maybe_open(file_or_path, 'w') as f:\n\t\t\twriter = csv.writer(f, **self.format_opts)\n\n\t\t\twriter.writerow(self.get_header())\n" + _CSV_OLD)
+_GEN_NEW = ("\t\twith maybe_open(file_or_path, 'w') as f:\n\t\t\tcsv.writer(f, **self.format_opts).writerows(self._iter_rows(results))\n\n"
+            "\tdef _iter_rows(self, results):\n\t\tyield self.get_header()\n\t\tyield from map(self.get_row, @ITEMS@)\n")
 VARIANTS = [
     V('zip for zip_strict', 'B', _Q, "for label, file in zip_strict(file_labels, files)]", "for label, file in zip(file_labels, files)]", 'A3'),
     V('files sorted in query_parse', 'B', _Q, "\tquery_sigs = calc_file_signatures(db.signatures.kmerspec, files, **parse_kw)", "\tquery_sigs = calc_file_signatures(db.signatures.kmerspec, sorted(files), **parse_kw)", 'A3'),
@@ -457,4 +951,76 @@ VARIANTS = [
       "\t\t\t\tfuture = executor.submit(calc_file_signature, kspec, file, accumulator=shared)", 'S4'),
     V('E: explicit comprehension instead of map', 'E', _C, "\t\tpaths_str = list(map(str, paths))\n", "\t\tpaths_str = [str(p) for p in paths]\n"),
     V('E: dmat[i] row form', 'E', _Q, "dmat[i, :], input) for i, input in enumerate(inputs_iter)]", "dmat[i], input) for i, input in enumerate(inputs_iter)]"),
+    # ---- idioms accepted by the value-flow forms of the rules, each with its broken twin
+    # A2 label derivation: guard clause + conditional expression + value bound to a new local
+    V('E: get_file_id with guard clause and conditional expression', 'E', _C, _GFI_OLD,
+      "\tid = os.fspath(path)\n\tif not strip_dir:\n\t\treturn id\n\tname = os.path.basename(id)\n\treturn strip_seq_file_ext(name) if strip_ext else name\n"),
+    V('guard-clause get_file_id strips the extension of the full path (directory kept)', 'B', _C, _GFI_OLD,
+      "\tid = os.fspath(path)\n\tif not strip_dir:\n\t\treturn id\n\tname = os.path.basename(id)\n\treturn strip_seq_file_ext(id) if strip_ext else name\n", 'A2'),
+    V('guard-clause get_file_id returns early on the wrong flag (default label unstripped)', 'B', _C, _GFI_OLD,
+      "\tid = os.fspath(path)\n\tif strip_dir:\n\t\treturn id\n\tname = os.path.basename(id)\n\treturn strip_seq_file_ext(name) if strip_ext else name\n", 'A2'),
+    V('E: get_file_id as one nested conditional expression', 'E', _C, _GFI_OLD,
+      "\tid = os.fspath(path)\n\treturn (strip_seq_file_ext(os.path.basename(id)) if strip_ext else os.path.basename(id)) if strip_dir else id\n"),
+    # A2 strip order: loop over a literal tuple of the two tables / nested call
+    V('E: extension groups stripped in a loop over a literal tuple', 'E', _C, _SSE_OLD,
+      "\tfor extensions in (GZIP_EXTENSIONS, FASTA_EXTENSIONS):\n\t\tfilename = strip_extensions(filename, extensions)\n\treturn filename\n"),
+    V('loop over the extension groups in the wrong order', 'B', _C, _SSE_OLD,
+      "\tfor extensions in (FASTA_EXTENSIONS, GZIP_EXTENSIONS):\n\t\tfilename = strip_extensions(filename, extensions)\n\treturn filename\n", 'A2'),
+    V('loop over the extension groups always strips the original name (only the last group counts)', 'B', _C, _SSE_OLD,
+      "\toriginal = filename\n\tfor extensions in (GZIP_EXTENSIONS, FASTA_EXTENSIONS):\n\t\tfilename = strip_extensions(original, extensions)\n\treturn filename\n", 'A2'),
+    V('E: extension groups stripped by a nested call', 'E', _C, _SSE_OLD,
+      "\treturn strip_extensions(strip_extensions(filename, GZIP_EXTENSIONS), FASTA_EXTENSIONS)\n"),
+    V('nested call strips FASTA inside gzip', 'B', _C, _SSE_OLD,
+      "\treturn strip_extensions(strip_extensions(filename, FASTA_EXTENSIONS), GZIP_EXTENSIONS)\n", 'A2'),
+    # A2 first-match search: next() over the matches / assignment + break
+    V('E: first matching extension through next()', 'E', _C, _SE_OLD,
+      "\tmatched = next((ext for ext in extensions if filename.endswith(ext)), None)\n\tif matched is None:\n\t\treturn filename\n\treturn filename[:-len(matched)]\n"),
+    V('E: first matching extension through next(), conditional expression', 'E', _C, _SE_OLD,
+      "\tmatched = next((ext for ext in extensions if filename.endswith(ext)), None)\n\treturn filename if matched is None else filename[:-len(matched)]\n"),
+    V('next() search cuts one character too many', 'B', _C, _SE_OLD,
+      "\tmatched = next((ext for ext in extensions if filename.endswith(ext)), None)\n\tif matched is None:\n\t\treturn filename\n\treturn filename[:-len(matched) - 1]\n", 'A2'),
+    V('next() search matches the extension anywhere in the name', 'B', _C, _SE_OLD,
+      "\tmatched = next((ext for ext in extensions if ext in filename), None)\n\tif matched is None:\n\t\treturn filename\n\treturn filename[:-len(matched)]\n", 'A2'),
+    V('next() search with the outcomes swapped', 'B', _C, _SE_OLD,
+      "\tmatched = next((ext for ext in extensions if filename.endswith(ext)), None)\n\tif matched is not None:\n\t\treturn filename\n\treturn filename[:-len(matched)]\n", 'A2'),
+    V('E: first matching extension recorded, then break', 'E', _C, _SE_OLD,
+      "\tfor ext in extensions:\n\t\tif filename.endswith(ext):\n\t\t\tfilename = filename[:-len(ext)]\n\t\t\tbreak\n\treturn filename\n"),
+    V('assignment form without the break (several suffixes removed)', 'B', _C, _SE_OLD,
+      "\tfor ext in extensions:\n\t\tif filename.endswith(ext):\n\t\t\tfilename = filename[:-len(ext)]\n\treturn filename\n", 'A2'),
+    V('early-return search strips characters instead of the suffix', 'B', _C, "\t\t\treturn filename[:-len(ext)]\n", "\t\t\treturn filename.rstrip(ext)\n", 'A2'),
+    # A4 pairing: rows iterated in lock step with the inputs; position counter with an offset
+    V('E: zip(inputs, matrix rows) instead of enumerate + index', 'E', _Q, _ITEMS_OLD, "items = [get_result_item(db, params, dists, input) for input, dists in zip(inputs_iter, dmat)]"),
+    V('E: zip(matrix rows, inputs)', 'E', _Q, _ITEMS_OLD, "items = [get_result_item(db, params, dists, input) for dists, input in zip(dmat, inputs_iter)]"),
+    V('zip pairs the inputs with the rows in reverse order', 'B', _Q, _ITEMS_OLD, "items = [get_result_item(db, params, dists, input) for input, dists in zip(inputs_iter, dmat[::-1])]", 'A4'),
+    V('zip pairs the inputs with the columns of the matrix', 'B', _Q, _ITEMS_OLD, "items = [get_result_item(db, params, dists, input) for input, dists in zip(inputs_iter, dmat.T)]", 'A4'),
+    V('zip form with the target names crossed', 'B', _Q, _ITEMS_OLD, "items = [get_result_item(db, params, dists, input) for dists, input in zip(inputs_iter, dmat)]", 'A4'),
+    V('E: enumerate from 1 with the row index shifted back', 'E', _Q, _ITEMS_OLD, "items = [get_result_item(db, params, dmat[i - 1, :], input) for i, input in enumerate(inputs_iter, 1)]"),
+    V('enumerate from 1 but row index not shifted (off by one row)', 'B', _Q, _ITEMS_OLD, "items = [get_result_item(db, params, dmat[i, :], input) for i, input in enumerate(inputs_iter, 1)]", 'A4'),
+    V('E: items as list(<generator expression over zip>)', 'E', _Q, _ITEMS_OLD,
+      "items = list(get_result_item(db, params, dists, input) for input, dists in zip(inputs_iter, dmat))"),
+    V('items comprehension with a filter (rows dropped)', 'B', _Q, _ITEMS_OLD, "items = [get_result_item(db, params, dmat[i, :], input) for i, input in enumerate(inputs_iter) if input.label]", 'A4'),
+    # A4 length bookkeeping: len(queries) named once; default numbering over range(1, n + 1)
+    V('E: len(queries) bound to a local, default labels from range(1, n + 1)', 'E', _Q, "\tif len(queries) == 0:\n", "\tnqueries = len(queries)\n\tif nqueries == 0:\n",
+      also=((_Q, "\t\tif len(inputs) != len(queries):\n", "\t\tif len(inputs) != nqueries:\n"),
+            (_Q, "inputs = [QueryInput(str(i + 1)) for i in range(len(queries))]", "inputs = [QueryInput(str(position)) for position in range(1, nqueries + 1)]"))),
+    V('default labels one short (range(1, n))', 'B', _Q, "\tif len(queries) == 0:\n", "\tnqueries = len(queries)\n\tif nqueries == 0:\n",
+      'A4', also=((_Q, "inputs = [QueryInput(str(i + 1)) for i in range(len(queries))]", "inputs = [QueryInput(str(position)) for position in range(1, nqueries)]"),)),
+    V('length compared with a stale count taken before the queries are known', 'B', _Q, "\tqueries = list(queries)\n", "\tqueries = list(queries)\n\tnqueries = len(db.genomes)\n",
+      'A4', also=((_Q, "\t\tif len(inputs) != len(queries):\n", "\t\tif len(inputs) != nqueries:\n"),)),
+    # A5 labels of the signature-file channel through map
+    V('E: sigfile labels through list(map(QueryInput, ids))', 'E', _CQ, "inputs = [QueryInput(id) for id in sigs.ids]", "inputs = list(map(QueryInput, sigs.ids))"),
+    V('sigfile labels through map over the sorted ids', 'B', _CQ, "inputs = [QueryInput(id) for id in sigs.ids]", "inputs = list(map(QueryInput, sorted(sigs.ids)))", 'A5'),
+    V('sigfile labels are positions, not the stored ids', 'B', _CQ, "inputs = [QueryInput(id) for id in sigs.ids]", "inputs = [QueryInput(str(n)) for n, id in enumerate(sigs.ids)]", 'A5'),
+    V('sigfile labels through map of a different constructor', 'B', _CQ, "inputs = [QueryInput(id) for id in sigs.ids]", "inputs = list(map(str, sigs.ids))", 'A5'),
+    # A8 rows handed to the csv writer in bulk: map / comprehension / generator method
+    V('E: csv rows through writerows(map(get_row, items))', 'E', _R, _CSV_OLD, "\t\t\twriter.writerows(map(self.get_row, results.items))\n"),
+    V('E: csv header and rows through one writerows over a concatenation', 'E', _R, "\t\t\twriter.writerow(self.get_header())\n" + _CSV_OLD,
+      "\t\t\twriter.writerows([self.get_header()] + [self.get_row(item) for item in results.items])\n"),
+    V('writerows over the reversed items', 'B', _R, _CSV_OLD, "\t\t\twriter.writerows(map(self.get_row, reversed(results.items)))\n", 'A8'),
+    V('writerows over a filtered comprehension (rows dropped)', 'B', _R, _CSV_OLD, "\t\t\twriter.writerows([self.get_row(item) for item in results.items if item.report_taxon is not None])\n", 'A8'),
+    V('E: csv rows from a generator method (header, then one row per item)', 'E', _R, _EXPORT_OLD, _GEN_NEW.replace('@ITEMS@', 'results.items')),
+    V('generator method yields the rows of the items sorted by label', 'B', _R, _EXPORT_OLD, _GEN_NEW.replace('@ITEMS@', 'sorted(results.items, key=lambda it: it.input.label)'), 'A8'),
+    V('generator method yields every item row twice', 'B', _R, _EXPORT_OLD, _GEN_NEW.replace("\t\tyield from map(self.get_row, @ITEMS@)\n", "\t\tfor item in results.items:\n\t\t\tyield self.get_row(item)\n\t\tyield from map(self.get_row, results.items)\n"), 'A8'),
+    V('E: row bound to a local before it is written', 'E', _R, "\t\t\t\twriter.writerow(self.get_row(item))\n", "\t\t\t\trow = self.get_row(item)\n\t\t\t\twriter.writerow(row)\n"),
+    V('row of the first item written for every item', 'B', _R, "\t\t\t\twriter.writerow(self.get_row(item))\n", "\t\t\t\trow = self.get_row(results.items[0])\n\t\t\t\twriter.writerow(row)\n", 'A8'),
 ]
